@@ -109,7 +109,11 @@ def struct_cases(rnd, n):
     orig_convert = mprogram.convert_eems2_commands
 
     def wrapped(nodes):
-        out = orig_convert(nodes)
+        try:
+            out = orig_convert(nodes)
+        except Exception:
+            rec["convert_error"] = True      # e.g. a list as NewFieldName: the conversion itself rejects the file
+            raise
         rec["in"] = list(nodes)
         rec["out"] = list(out)
         return out
@@ -136,6 +140,9 @@ def struct_cases(rnd, n):
                 pass
             if "parsed" not in rec or rec["parsed"] is None:
                 stats["parse_rejected"] += 1
+                continue
+            if rec.get("convert_error"):
+                stats["conversion_rejected"] = stats.get("conversion_rejected", 0) + 1
                 continue
             pn = rec["parsed"]
             flag = pn.version == 2
